@@ -96,31 +96,52 @@ inductive Scope where
   | host (op : StrOp) (s : Bytes)
   | ip (neg : Bool) (net : SockAddr) (bits : Nat)   -- == / != "addr/bits" (bits 0 = whole address)
 
+/-- ranges a continuation byte may have to lie in (RFC 3629 table 3-7) -/
+inductive U8Range where
+  | r80bf | ra0bf | r809f | r90bf | r808f
+deriving DecidableEq, Repr
+
+def U8Range.has (r : U8Range) (b : UInt8) : Bool :=
+  match r with
+  | .r80bf => 0x80 ≤ b && b ≤ 0xbf
+  | .ra0bf => 0xa0 ≤ b && b ≤ 0xbf
+  | .r809f => 0x80 ≤ b && b ≤ 0x9f
+  | .r90bf => 0x90 ≤ b && b ≤ 0xbf
+  | .r808f => 0x80 ≤ b && b ≤ 0x8f
+
+/-- state of the UTF-8 check: continuation bytes still expected, range of the next one -/
+structure U8St where
+  need : Nat := 0
+  next : U8Range := .r80bf
+deriving DecidableEq, Repr
+
+/-- what a lead byte announces (`none` = not a lead byte of well-formed UTF-8) -/
+def u8Lead (b : UInt8) : Option U8St :=
+  if b < 0x80 then some {}
+  else if 0xc2 ≤ b && b ≤ 0xdf then some ⟨1, .r80bf⟩
+  else if b == 0xe0 then some ⟨2, .ra0bf⟩
+  else if b == 0xed then some ⟨2, .r809f⟩
+  else if 0xe1 ≤ b && b ≤ 0xef then some ⟨2, .r80bf⟩
+  else if b == 0xf0 then some ⟨3, .r90bf⟩
+  else if 0xf1 ≤ b && b ≤ 0xf3 then some ⟨3, .r80bf⟩
+  else if b == 0xf4 then some ⟨3, .r808f⟩
+  else none
+
+def u8Step (st : Option U8St) (b : UInt8) : Option U8St :=
+  match st with
+  | none => none
+  | some st =>
+    if st.need = 0 then u8Lead b
+    else if st.next.has b then some ⟨st.need - 1, .r80bf⟩ else none
+
 /-- PCRE2 is called with PCRE2_UTF (data_config_pcre_compile()): pcre2_match() fails, and the
     condition is taken as "no match", when the subject is not well-formed UTF-8 (RFC 3629:
-    no stray continuation bytes, no truncated or overlong forms, no surrogates, ≤ U+10FFFF) -/
-def validUtf8 : Bytes → Bool
-  | [] => true
-  | c :: rest =>
-    if c < 0x80 then validUtf8 rest
-    else if c < 0xc0 || c ≥ 0xf8 then false
-    else
-      let cont (b : UInt8) : Bool := b &&& 0xc0 == 0x80
-      if c < 0xe0 then
-        match rest with
-        | d :: r => cont d && (c &&& 0x3e != 0) && validUtf8 r
-        | _ => false
-      else if c < 0xf0 then
-        match rest with
-        | d :: e :: r =>
-          cont d && cont e && !(c == 0xe0 && d &&& 0x20 == 0) && !(c == 0xed && d ≥ 0xa0) && validUtf8 r
-        | _ => false
-      else
-        match rest with
-        | d :: e :: f :: r =>
-          cont d && cont e && cont f && !(c == 0xf0 && d &&& 0x30 == 0) &&
-            !(c > 0xf4 || (c == 0xf4 && d > 0x8f)) && validUtf8 r
-        | _ => false
+    no stray continuation bytes, no truncated or overlong forms, no surrogates, ≤ U+10FFFF).
+    Byte-at-a-time automaton. -/
+def validUtf8 (u : Bytes) : Bool :=
+  match u.foldl u8Step (some {}) with
+  | some st => st.need == 0
+  | none => false
 
 /-- `(?i)^lit` and `(?i)lit$` as PCRE2 (UTF mode) decides them for ASCII literals -/
 def reCaselessPrefix (lit u : Bytes) : Bool := validUtf8 u && preMatch true lit u
